@@ -16,6 +16,7 @@ func init() {
 				{Harness: "c07.overread", Mode: "checkptr", Shards: 16, GC: "on"},
 				{Harness: "c07.bystanders", Mode: "shim", Shards: 16},
 				{Harness: "c07.guard", Mode: "plain", Shards: 4, GC: "on"},
+				{Harness: "c07.slices", Mode: "shim", Shards: 16},
 			}
 		},
 	})
